@@ -254,6 +254,9 @@ func ReplayCmd(path string) (bool, string, error) {
 	}
 	r := c.run(60*time.Second, rf.Cmd...)
 	out := fmt.Sprintf("exit=%d panic=%v\n%s%s", r.Exit, r.Panic, abbreviate(r.Out), abbreviate(r.Err))
+	if rf.Rule == "default_build.switch_on" {
+		return strings.Contains(r.Out, "Send a AddAllowedBidder tx"), out, nil
+	}
 	return r.Panic || r.Exit != 0, out, nil
 }
 
